@@ -25,6 +25,7 @@ CONSTANTS
   EnUnsub = TRUE
   EnPing = TRUE
   EnDisconnect = TRUE
+  PubEmpty = {FALSE}
   EnStale = TRUE
 SPECIFICATION TraceSpec
 INVARIANTS NoPanic SlabsAligned ReadyqSound NoLostRequest DeliveredExactly NoSpurious AcksInOrder WindowBound UniqueInflightIds InflightIdsValid QuiescentComplete
